@@ -11,7 +11,8 @@ import (
 	"verifharness/internal/vh"
 )
 
-// n01Shape: a reference decoding to "&" directly followed by a reference decoding to an alphanumeric or "#".
+// n01Shape: an ampersand (literal, or a reference decoding to "&") directly followed by a reference decoding to an
+// alphanumeric or "#".
 // Returns the input with a space inserted between the two (the counterfactual).
 func n01Shape(src string) (string, bool) {
 	us := units(src)
@@ -19,7 +20,7 @@ func n01Shape(src string) (string, bool) {
 	found := false
 	for i, u := range us {
 		sb.WriteString(u)
-		if i+1 < len(us) && len(u) > 1 && u[0] == '&' && xhtml.UnescapeString(u) == "&" {
+		if i+1 < len(us) && u[0] == '&' && (len(u) == 1 || xhtml.UnescapeString(u) == "&") {
 			nx := us[i+1]
 			if len(nx) > 1 && nx[0] == '&' {
 				d := xhtml.UnescapeString(nx)
@@ -60,7 +61,7 @@ func labelNew(c *Case, v *vh.Violation, gone func(*Case) bool) {
 		}
 	}
 	if n02Re.MatchString(c.Input) {
-		if gone(variant(func(t *Case) { t.Input = n02Re.ReplaceAllString(c.Input, "<\\${1}${2}") })) {
+		if gone(variant(func(t *Case) { t.Input = n02Re.ReplaceAllString(c.Input, "${1}${2}") })) {
 			v.Signature = "N02:rawtext-end-tag-without-tag-end-character:" + sig
 			return
 		}
